@@ -6,7 +6,7 @@
 cd /verif || exit 2
 ls /verif/seeded/C*/patch.diff | xargs -n 12 ./bin/sa crosspatch > /tmp/matrix_raw.txt 2>&1
 python3 - <<'PY'
-import re
+import re,json,os
 rows=[]
 for l in open('/tmp/matrix_raw.txt'):
     parts=l.rstrip('\n').split('\t')
@@ -21,6 +21,9 @@ for l in open('/tmp/matrix_raw.txt'):
         verdict='REPORTED' if own else ('reported-by-other-property-only' if other else 'MISSED')
     else:
         verdict='silent' if not rules else 'FALSE-ALARM'
+        try:
+            if rules and json.load(open('/verif/seeded/'+name+'/meta.json')).get('known_false_alarm'): verdict='KNOWN-FALSE-ALARM'
+        except Exception: pass
     rows.append((name,kind,verdict,' '.join(own),' '.join(other)))
 rows.sort()
 open('/verif/seeded/MATRIX.tsv','w').write('variant\tkind\tverdict\town_property_rules\tother_property_rules\n'+''.join('\t'.join(r)+'\n' for r in rows))
